@@ -458,6 +458,31 @@ func Fixed() []*Spec {
 		Rules: rules("S: 'p' S 'q' W | W"),
 		NTTag: allVal("S")})
 
+	// consecutive nullable symbols in the middle of a rule: optional (eps | t) and marker (eps only)
+	for _, combo := range []string{"OO", "OM", "MO", "MM", "OMO"} {
+		sp := &Spec{Name: "nullseq_" + combo, Tags: []string{"lalr1", "nullable"}, Toks: []Tok{litV('k'), litV('v')}}
+		rhs := "K"
+		var rest []string
+		for i, ch := range combo {
+			nt := fmt.Sprintf("N%d", i+1)
+			rhs += " " + nt
+			if ch == 'O' {
+				tk := byte('f' + i)
+				sp.Toks = append(sp.Toks, litV(tk))
+				rest = append(rest, fmt.Sprintf("%s: | '%c'", nt, tk))
+			} else {
+				rest = append(rest, nt+": ")
+			}
+		}
+		sp.Rules = rules(append([]string{"S: " + rhs + " 'v'", "K: 'k'"}, rest...)...)
+		sp.NTTag = allVal("S", "K")
+		add(sp)
+	}
+	// left recursion with the base alternative first, three levels
+	add(&Spec{Name: "etf_basefirst", Tags: []string{"lalr1"},
+		Toks:  []Tok{named("NUM", 302), lit('+'), lit('*'), lit('('), lit(')')},
+		Rules: rules("E: T | E '+' T", "T: F | T '*' F", "F: NUM | '(' E ')'"),
+		NTTag: allVal("E", "T", "F")})
 	// default-resolved conflicts
 	add(&Spec{Name: "dangling_else", Tags: []string{"conflict-sr"},
 		Toks:  []Tok{lit('i'), lit('e'), litV('x')},
